@@ -69,15 +69,21 @@ def get_args():
     return args, remaining_args
 
 
+def pattern_in(directory, *parts):
+    # The directory is a literal path: characters like "[" in its name must not
+    # be read as part of the pattern.
+    return os.path.join(glob.escape(directory), *parts)
+
+
 def validate_initial_output_dir_and_get_result_files_as_dict(output_dir):
-    test_screen_glob = list(glob.glob(os.path.join(output_dir, "*", "test.screen.h5")))
+    test_screen_glob = list(glob.glob(pattern_in(output_dir, "*", "test.screen.h5")))
 
     training_screen_glob = list(
-        glob.glob(os.path.join(output_dir, "*", "training.screen.h5"))
+        glob.glob(pattern_in(output_dir, "*", "training.screen.h5"))
     )
 
     screen_metadata = list(
-        glob.glob(os.path.join(output_dir, "*", "screen_metadata.json"))
+        glob.glob(pattern_in(output_dir, "*", "screen_metadata.json"))
     )
 
     if len(training_screen_glob) == 0 or len(screen_metadata) == 0:
@@ -99,11 +105,11 @@ def validate_initial_output_dir_and_get_result_files_as_dict(output_dir):
 
 def get_screen_from_job_output(output_dir):
     advanced_screen_glob = list(
-        glob.glob(os.path.join(output_dir, "*", "advanced_screen.h5"))
+        glob.glob(pattern_in(output_dir, "*", "advanced_screen.h5"))
     )
 
     training_screen_glob = list(
-        glob.glob(os.path.join(output_dir, "*", "training.screen.h5"))
+        glob.glob(pattern_in(output_dir, "*", "training.screen.h5"))
     )
 
     if len(advanced_screen_glob) == 0 and len(training_screen_glob) == 0:
@@ -116,7 +122,7 @@ def get_screen_from_job_output(output_dir):
 
 def get_test_screen_from_job_output(output_dir):
     test_screen_glob = list(
-        glob.glob(os.path.join(output_dir, "*", "training.screen.h5"))
+        glob.glob(pattern_in(output_dir, "*", "training.screen.h5"))
     )
 
     if len(test_screen_glob) == 0:
@@ -127,13 +133,13 @@ def get_test_screen_from_job_output(output_dir):
 
 def validate_job_dir_and_return_meta(output_dir):
     screen_metadata = list(
-        glob.glob(os.path.join(output_dir, "*", "screen_metadata.json"))
+        glob.glob(pattern_in(output_dir, "*", "screen_metadata.json"))
     )
 
     # In the prospective workflow the screen metadata is extracted from the
     # input screen and can be published before the plate selection has finished,
     # so a job is only complete once its selection has been recorded as well.
-    selected_plate = list(glob.glob(os.path.join(output_dir, "*", "selected_plate")))
+    selected_plate = list(glob.glob(pattern_in(output_dir, "*", "selected_plate")))
 
     if len(screen_metadata) == 0 or len(selected_plate) == 0:
         return None
@@ -147,22 +153,22 @@ def validate_job_dir_and_return_meta(output_dir):
 
 
 def get_theta_and_dist_chunks(output_dir):
-    thetas = list(glob.glob(os.path.join(output_dir, "*", "thetas*.h5")))
+    thetas = list(glob.glob(pattern_in(output_dir, "*", "thetas*.h5")))
     dist_chunks = list(
-        glob.glob(os.path.join(output_dir, "*", "distance_matrix_chunk*.h5"))
+        glob.glob(pattern_in(output_dir, "*", "distance_matrix_chunk*.h5"))
     )
 
     if len(thetas) == 0 or len(dist_chunks) == 0:
         raise ValueError("No thetas or dist_chunks found")
 
     return {
-        "thetas": os.path.join(output_dir, "*", "thetas*.h5"),
-        "dist_chunks": os.path.join(output_dir, "*", "distance_matrix_chunk*.h5"),
+        "thetas": pattern_in(output_dir, "*", "thetas*.h5"),
+        "dist_chunks": pattern_in(output_dir, "*", "distance_matrix_chunk*.h5"),
     }
 
 
 def get_selected_plates(output_dir):
-    plates = list(glob.glob(os.path.join(output_dir, "plate_*", "*", "selected_plate")))
+    plates = list(glob.glob(pattern_in(output_dir, "plate_*", "*", "selected_plate")))
     output = []
 
     for fn in plates:
@@ -299,7 +305,7 @@ def dir_sort_key(x):
 
 def examine_output_dir_to_determine_current_iteration(output_dir, batch_size):
     # list all directories in output directory
-    contents_of_output_directory = glob.glob(output_dir + "/iter_*")
+    contents_of_output_directory = glob.glob(pattern_in(output_dir, "iter_*"))
     # filter to directories
     iter_dirs = [x for x in contents_of_output_directory if os.path.isdir(x)]
 
@@ -309,7 +315,7 @@ def examine_output_dir_to_determine_current_iteration(output_dir, batch_size):
     current_plate_idx = None
 
     for iter_dir in iter_dirs:
-        contents_of_iter_directory = glob.glob(iter_dir + "/plate_*")
+        contents_of_iter_directory = glob.glob(pattern_in(iter_dir, "plate_*"))
         plate_dirs = [x for x in contents_of_iter_directory if os.path.isdir(x)]
 
         plate_dirs = sorted(plate_dirs, key=dir_sort_key)
